@@ -64,6 +64,24 @@ def run(chk):
             if x:
                 kw['extra_letters'] = x
             sizekw = None
+        elif tid % 7 == 3:
+            # shapes that occur equally often, with fewer patterns allowed than shapes: which ones survive the pruning
+            # must not depend on whether capture groups were asked for
+            gens = [lambda: ''.join(rnd.choice('abcdefgh') for _ in range(2)), lambda: 'A-%d' % rnd.randint(0, 9),
+                    lambda: '%d' % rnd.randint(10, 99), lambda: ':' + rnd.choice('xyz'), lambda: rnd.choice('QRS') + rnd.choice('qrs') + '!']
+            shapes = rnd.sample(gens, rnd.randint(2, 4))
+            k = rnd.randint(1, 3)
+            ex = []
+            for g in shapes:
+                vals = set()
+                while len(vals) < k:
+                    vals.add(g())
+                ex += sorted(vals)
+            rnd.shuffle(ex)
+            kw = {'max_patterns': rnd.randint(1, len(shapes) - 1)}
+            if rnd.random() < 0.5:
+                kw['tag'] = True
+            sizekw = None
         else:
             ex = rx.rich_examples(rnd)
             kw, sizekw = rx.rich_options(rnd)
@@ -77,6 +95,9 @@ def run(chk):
             for e in ex:
                 if e is not None:
                     d[e] = d.get(e, 0) + rnd.randint(1, 3)
+            if rnd.random() < 0.4:
+                # a key with multiplicity zero is not an example
+                d[rnd.choice(['zero-Count_77', 'ZZZ', '0.0.0', 'ünused'])] = 0
             given = d
         else:
             given = ex
